@@ -1247,17 +1247,27 @@ def c18e(F, R):
 
 def _unicode_summary(F):
     """reviewed summary of Lexer::unicode_code, valid only while its shape holds: the four characters at offsets 2..5 are
-    validated as hexadecimal digits (`to_digit(16)`, `None => return None`) before `skip_char(4)` steps over offsets 0..3."""
+    read with `peek(k)?`, validated as hexadecimal digits (`to_digit(16)`, failure leaves the function with None) and converted
+    (`char::from_u32(..)?`) *before* `skip_char(4)` steps over offsets 0..3.  Returns a summary function, or a string that
+    says which part of the contract is broken."""
     from .lexcursor import St
     f = F.fn(LEXER + "::unicode_code")
-    body = f["hir"]["value"]
+    body = peel(f["hir"]["value"])
+    stmts = (body.get("stmts") or []) + ([{"k": "Expr", "e": body["expr"]}] if body.get("expr") is not None else [])
+
+    def idx_of(pred):
+        return [i for i, st in enumerate(stmts) if any(pred(m) for m in walk(st, pats=False))]
     peeks = sorted(lit_value(m["args"][0]) for m in walk(body, pats=False) if m.get("k") == "MethodCall" and m["name"] == "peek" and m["args"])
-    digs = [m for m in walk(body, pats=False) if m.get("k") == "MethodCall" and m["name"] == "to_digit" and m["args"] and lit_value(m["args"][0]) == 16]
+    dig_i = idx_of(lambda m: m.get("k") == "MethodCall" and m["name"] == "to_digit" and m["args"] and lit_value(m["args"][0]) == 16)
+    conv_i = idx_of(lambda m: m.get("k") == "Call" and (callee_of(m) or "").endswith("from_u32"))
+    skip_i = idx_of(lambda m: m.get("k") == "MethodCall" and m["name"] == "skip_char" and m["args"] and lit_value(m["args"][0]) == 4)
     skips = [lit_value(m["args"][0]) for m in walk(body, pats=False) if m.get("k") == "MethodCall" and m["name"] == "skip_char"]
     consumes = [m for m in walk(body, pats=False) if m.get("k") == "MethodCall" and m["name"] == "consume_char"]
-    none_ret = any(n.get("k") == "Ret" and short(peel(n.get("e") or {}).get("res") or "") == "None" for n in walk(body, pats=False))
-    if peeks != [2, 3, 4, 5] or len(digs) != 1 or skips != [4] or consumes or not none_ret:
-        return None
+    if peeks != [2, 3, 4, 5] or not dig_i or skips != [4] or consumes:
+        return "UNEXTRACTABLE: Lexer::unicode_code no longer has the reviewed shape (peek 2..5, to_digit(16), one skip_char(4))"
+    if min(skip_i) <= max(dig_i) or (conv_i and min(skip_i) < max(conv_i)):
+        return "Lexer::unicode_code moves the cursor (`skip_char(4)`) before the four characters are validated as hexadecimal digits: a truncated `\\u` escape at the end of a line steps over the newline, and the following line is dropped by the error recovery"
+    f_sp = f["sp"]
 
     def summary(cur, e, st):
         # requires offsets 0 and 1 to be known (the backslash and the `u`)
@@ -1267,7 +1277,7 @@ def _unicode_summary(F):
             s.know[o] = "N"
         for _ in range(4):
             if s.know.get(0) is None:
-                cur.viol.setdefault("unicode_code|skip_char(4)", ("skip_char(4) in unicode_code steps over a character that was not validated", f["sp"]))
+                cur.viol.setdefault("unicode_code|skip_char(4)", ("skip_char(4) in unicode_code steps over a character that was not validated", f_sp))
             s = s.shift()
         outs.append(("normal", s, ("tag", "Some")))
         return outs
@@ -1279,8 +1289,8 @@ def c07i(F, R):
     """abstract interpretation of the lexer's cursor: every `consume_char()` reachable from `Lexer::next` steps over a character already established not to be a newline (or, in the Newline arm, known to be one); a token or an error that swallows the line break glues the following line to the current one"""
     from .lexcursor import Cursor, Unextractable
     summ = _unicode_summary(F)
-    if summ is None:
-        R.bad("unicode_code|summary", "UNEXTRACTABLE: Lexer::unicode_code no longer has the reviewed shape (peek 2..5, to_digit(16), skip_char(4))", F.fn(LEXER + "::unicode_code")["sp"])
+    if isinstance(summ, str):
+        R.bad("unicode_code|summary", summ, F.fn(LEXER + "::unicode_code")["sp"])
         return
     nxt = [F.method(LEXER, "next", trait="Iterator")]
     cur = Cursor(F, summaries={"unicode_code": summ})
@@ -1479,3 +1489,30 @@ def c07k(F, R):
             R.ok(key, detail="the loop is left when a token read fails (end of input)", where=loc(lp))
         else:
             R.bad(key, "a decoder loop reads tokens but has no exit on a failing read: it cannot end at the end of the input", loc(lp))
+
+
+@rule("C07", "C07.l.only-consume-char-moves-the-cursor", floor=3)
+@rule("C09", "C09.f.only-consume-char-moves-the-cursor", floor=3)
+def c09f(F, R):
+    """`pos`, `row` and `col` of the lexer are written only by `consume_char` (and the constructor): any other writer lets the byte offset and the line/column drift apart (a skip that adds to `pos` loses the newline's row increment)"""
+    cursor = {"pos", "row", "col"}
+    n = 0
+    for q, g in sorted(F.fns.items()):
+        if "hir" not in g or not (q.startswith(LEXER + "::") or q.startswith("<" + LEXER + " as ")):
+            continue
+        name = short(q.split("::{closure")[0])
+        for a in walk(g["hir"]["value"], pats=False):
+            if a.get("k") in ("Assign", "AssignOp"):
+                l = peel(a["l"])
+                if l.get("k") == "Field" and ekey(l["e"]).lstrip("*&") == "self" and l["name"] in cursor:
+                    n += 1
+                    if name == "consume_char":
+                        R.ok(f"consume_char|{l['name']}|{n}", detail=f"consume_char updates self.{l['name']}")
+                    else:
+                        R.bad(f"{name}|{l['name']}", f"`{name}` writes `self.{l['name']}` directly: only consume_char keeps offset, row and column in step, so every position after this point is reported with a wrong line or column", loc(a))
+            if a.get("k") == "AddrOf" and a.get("mut"):
+                l = peel(a["e"])
+                if l.get("k") == "Field" and ekey(l["e"]).lstrip("*&") == "self" and l["name"] in cursor and name != "consume_char":
+                    R.bad(f"{name}|{l['name']}|borrow", f"`{name}` takes `&mut self.{l['name']}`", loc(a))
+    if n == 0:
+        raise Anchor("no assignment to the lexer cursor found")
